@@ -64,14 +64,6 @@ Definition expected_lines (prefix : str) (status : list str) (strict : bool)
            (checks : list hcheck) (catalog : list centry) : list str :=
   flat_map (fun e => if routed_b prefix status strict checks e then e_cmds e else []) catalog.
 
-(* finding region of the service pipeline *)
-(* 1: two different instances share the key Node + "." + ServiceID *)
-Definition inst_eqb (a b : str * str) : bool := beq (fst a) (fst b) && beq (snd a) (snd b).
-Definition key_collision_b (insts : list (str * str)) : bool :=
-  existsb (fun a => existsb (fun b => negb (inst_eqb a b)
-                                      && beq (inst_key (fst a) (snd a)) (inst_key (fst b) (snd b))) insts) insts.
-Definition instances_of (checks : list hcheck) (catalog : list centry) : list (str * str) :=
-  map (fun c => (c_node c, c_sid c)) checks ++ map (fun e => (e_node e, e_sid e)) catalog.
 (* ---- the watch loop: which table ought to be active ---- *)
 Fixpoint last_svc (h : list event) (d : str) : str :=
   match h with
